@@ -17,7 +17,7 @@ import datetime as _dt
 import numpy as np
 import z3
 
-from .core import Sym, SymSeq, Unsupported, is_concrete_int
+from .core import Sym, SymSeq, Unsupported, canon, canon_sexpr, is_concrete_int
 from .models import FlatSeq, IndexContext, SymMap
 from .ops import SymComplex, as_int_term
 
@@ -28,7 +28,7 @@ def sort_tag(v):
 
 
 def sx(t):
-    return z3.simplify(t).sexpr() if z3.is_expr(t) else repr(t)
+    return canon_sexpr(t) if z3.is_expr(t) else repr(t)
 
 
 def canon_index(depth):
@@ -64,7 +64,7 @@ class Dumper:
                 if z3.eq(t2, t):
                     break
                 t = t2
-        t = z3.simplify(t)
+        t = canon(t)
         self.terms.append(t)
         self.term_ctx.append((t, tuple(self.ctx)))
         return t.sexpr()
